@@ -137,7 +137,8 @@ theorem c07_assert_length_not_equal : Correct "assert_length_not_equal" cond_ass
   | error e => cases e <;> c07_crunch
   | ok n =>
     simp only [eval, evalCmp, Ctx.side]
-    cases h2 : pyEq (.int n) c.right.v <;> simp [Except.map, V.ofBool, V.fresh, truthy, evalOutcome, relOutcome, h2]
+    cases h2 : pyEq (.int n) c.right.v <;>
+      simp [Except.map, V.ofBool, V.fresh, truthy, evalOutcome, relOutcome, notR, h2]
 
 theorem c07_assert_length_less : Correct "assert_length_less" cond_assert_length_less := by
   refine correct_of _ _ _ rfl fun c _ => ?_
@@ -442,5 +443,78 @@ theorem c07_negation_exclusive : ∀ p ∈ negationPairs, ∃ ca ca' rel,
       negation_exclusive_of _ _ _ _ _ rfl rfl c07_assert_output_contains c07_assert_not_output_contains c hne b hev⟩
   · exact ⟨cond_assert_output_regex, cond_assert_not_output_regex, _, rfl, rfl, rfl, fun c b hne hev =>
       negation_exclusive_of _ _ _ _ _ rfl rfl c07_assert_output_regex c07_assert_not_output_regex c hne b hev⟩
+
+/-! ## equality: tolerance and normalisation do not depend on the argument order -/
+
+/-- **Float tolerance.**  For two numbers (bool/int/float) `equality_test` is `abs(a - e) < delta`,
+    computed exactly, as soon as either is a float — whichever side the float is on — and `==`
+    otherwise; swapping the arguments never changes the answer. -/
+theorem c07_tolerance_symmetric (ex : Bool) (d : Int × Nat) (a e : PyVal) (x y : Int × Nat)
+    (ha : num? a = some x) (he : num? e = some y) :
+    eqTest ex (some d) a e = .ok (if isFloat a || isFloat e then numClose x y d else numEq x y) ∧
+    eqTest ex (some d) a e = eqTest ex (some d) e a := by
+  rw [eqTest_num ex d a e x y ha he, eqTest_num ex d e a y x he ha]
+  rw [numClose_comm y x d, numEq_comm y x, Bool.or_comm (isFloat e) (isFloat a)]
+  exact ⟨rfl, rfl⟩
+
+/-- **String normalisation.**  Two strings are compared exactly (`exact_strings`) or through
+    `_normalize_string`; in both modes swapping the arguments never changes the answer. -/
+theorem c07_string_normalisation_symmetric (ex : Bool) (d : Option (Int × Nat)) (sa se : List Nat) :
+    eqTest ex d (.str sa) (.str se) = eqTest ex d (.str se) (.str sa) := by
+  rw [eqTest_str, eqTest_str, Bool.and_comm (isAscii sa) (isAscii se)]
+  have h1 : (sa == se) = (se == sa) := BEq.comm
+  have h2 : (normStr se == normStr sa) = (normStr sa == normStr se) := BEq.comm
+  rw [h1, h2]
+
+/-- The normal form ignores letter case. -/
+theorem c07_normalisation_ignores_case (s : List Nat) : normStr (s.map lowerC) = normStr s := by
+  unfold normStr
+  have : (s.map lowerC).map lowerC = s.map lowerC := by
+    rw [List.map_map]
+    congr 1
+    funext c
+    exact lowerC_idem c
+  rw [this]
+
+example : normStr [72, 105, 33] = normStr [104, 105] := by decide   -- "Hi!" ~ "hi"
+
+/-! ## unit_test / assert_group -/
+
+theorem Group.foldl_add (outs : List Outcome) (g : Group) :
+    (outs.foldl Group.add g).successes = g.successes + (outs.filter (· == .silent)).length ∧
+    (outs.foldl Group.add g).failures = g.failures + (outs.filter (· != .silent)).length ∧
+    (outs.foldl Group.add g).total = g.total + outs.length := by
+  induction outs generalizing g with
+  | nil => simp
+  | cons o os ih =>
+    simp only [List.foldl_cons]
+    obtain ⟨h1, h2, h3⟩ := ih (g.add o)
+    rw [h1, h2, h3]
+    cases o <;> simp [Group.add, List.filter_cons] <;> omega
+
+/-- **unit_test.**  For any list of cases: it succeeds exactly when every case's assertion is
+    silent, `success_count` is the number of silent cases and `total_count` the number of cases. -/
+theorem c07_unit_test_all_and_count (g : Guard) (cond : CondExpr) (cases : List Ctx) :
+    ((unitTest g cond cases).1 = true ↔ ∀ c ∈ cases, outcome g cond c = .silent) ∧
+    (unitTest g cond cases).2.1 = (cases.filter fun c => outcome g cond c == .silent).length ∧
+    (unitTest g cond cases).2.2 = cases.length := by
+  obtain ⟨h1, h2, h3⟩ := Group.foldl_add (cases.map (outcome g cond)) {}
+  simp only [unitTest, Group.run, Group.passed]
+  refine ⟨?_, ?_, ?_⟩
+  · rw [h2]
+    simp only [Nat.zero_add, beq_iff_eq, List.length_eq_zero_iff, List.filter_eq_nil_iff, List.mem_map,
+      forall_exists_index, and_imp, forall_apply_eq_imp_iff₂]
+    constructor
+    · intro h c hc
+      have := h c hc
+      simpa using this
+    · intro h c hc
+      simp [h c hc]
+  · rw [h1]
+    simp [List.filter_map, Function.comp_def]
+  · rw [h3]
+    simp
+
+example : unitTest wrapperGuard cond_assert_equal [] = (true, 0, 0) := by decide
 
 end Pedal.Assertions
